@@ -33,10 +33,35 @@ fn main() {
     let per_model = if args.thorough { 60 } else { 40 };
     let mut load_fail = 0u64;
     for _ in 0..n_models {
-        let Some(gm) = gen_model(&mut rng) else {
+        let cf = rng.chance(1, 4);
+        let Some(gm) = (if cf { gen_cf_model(&mut rng) } else { gen_model(&mut rng) }) else {
             load_fail += 1;
             continue;
         };
+        // run-time assertion of the graph hypotheses of the theorems (WFG, WFGo, outsValue,
+        // UniqueProducer, no top-level captures, Contract.notSub), on the real graph and its subgraphs
+        {
+            let model = load(&gm.bytes, gm.optimize).unwrap();
+            for g in all_graphs(model.verif_graph()) {
+                let (line, ans) = assume_case(g);
+                let pf = if gm.assumption_failures.is_empty() { None } else { Some(format!("assumption violated: {}", gm.assumption_failures.join(","))) };
+                out.bucket(if cf { "assume_control_flow_graph" } else { "assume_graph" });
+                out.case(&line, &ans, pf.as_deref(), false);
+            }
+            // Model-level wrappers: name -> id lookup
+            let bogus = format!("no_such_node_{}", rng.below(1000));
+            let r = hcommon::catch(|| (model.find_node(&bogus).is_none(), model.node_id(&bogus).map(|_| ()).map_err(|e| classify(&e))));
+            let (ans, pf) = match r {
+                Ok((true, Err(c))) => (c, None),
+                Ok((_, Ok(()))) | Ok((false, _)) => ("ok".to_string(), Some("unknown node name resolved".to_string())),
+                Err(p) => ("panic".to_string(), Some(format!("panic: {p}"))),
+            };
+            out.bucket("wrap_unknown_name");
+            out.case("wrap unknown-name", &ans, pf.as_deref(), false);
+            let some = &gm.vals[0].name;
+            let same = model.node_id(some).ok().map(|i| i.as_u32()) == model.find_node(some).map(|i| i.as_u32()) && model.find_node(some).map(|i| i.as_u32()) == gm.val_ids[0];
+            out.case("wrap known-name", if same { "ok" } else { "mismatch" }, if same { None } else { Some("node_id/find_node disagree") }, false);
+        }
         if gm.live_values().is_empty() || gm.op_ids.is_empty() {
             continue;
         }
@@ -123,8 +148,30 @@ fn main() {
             if gm.optimize {
                 out.bucket("model_optimized");
             }
+            if gm.control_flow {
+                out.bucket("model_control_flow");
+                out.bucket(&format!("cf_ans_{}", ans.split(' ').next().unwrap()));
+            }
             out.case(&line, &ans, pf.as_deref(), !warm.is_empty() || kind != "none");
         }
+    }
+    // run_one on a model without inputs: Err(InvalidNodeId), not a panic
+    {
+        let g = onnx_enc::Graph {
+            nodes: vec![onnx_enc::Node::new("Relu", "r", &["c"], &["o"])],
+            initializers: vec![onnx_enc::Tensor::f32s("c", &[2], &[1.0, -1.0])],
+            outputs: vec![onnx_enc::ValueInfo::new("o", onnx_enc::dt::FLOAT, None)],
+            ..Default::default()
+        };
+        let model = load(&g.into_model_bytes(18), false).unwrap();
+        let v = rten_tensor::Tensor::<f32>::from_data(&[2], vec![1.0, 2.0]);
+        let r = hcommon::catch(|| model.run_one(rten::ValueOrView::from(rten::Value::from(v)), None).map(|_| ()).map_err(|e| classify(&e)));
+        let (ans, pf) = match r {
+            Ok(Err(c)) => (c, None),
+            Ok(Ok(())) => ("ok".to_string(), Some("run_one without a model input returned Ok".to_string())),
+            Err(p) => ("panic".to_string(), Some(format!("panic: {p}"))),
+        };
+        out.case("wrap run-one-no-input", &ans, pf.as_deref(), false);
     }
     out.note(&format!("models that failed to load: {load_fail}"));
     out.finish("any panic is a violation; a request invalid by construction that returns Ok is a violation; outcome class (and partial_run leaf ids) equal the Lean model's");
